@@ -95,7 +95,9 @@ Reopen ==
                                hdr |-> IF o \in rebuild THEN newHdr(o) ELSE dCol[o].hdr]]
      /\ dCol' = IF FixHdr THEN [o \in DOMAIN dCol |-> IF o \in rebuild THEN [dCol[o] EXCEPT !.hdr = newHdr(o)] ELSE dCol[o]]
                           ELSE dCol
-     \* a re-attached B-tree shows what its header page holds; everything else is rebuilt from the heap
+     \* a re-attached B-tree shows what its header page holds; everything else is rebuilt from the heap (a hash index
+     \* keeps its header page for good - it is written when the index is created - and is cleared and refilled in
+     \* place after a crash; after a graceful stop its pages are ordinary flushed pages)
      /\ idxVer' = [o \in DOMAIN idxVer |-> IF o \in Btrees /\ clean THEN page[dCol[o].hdr] ELSE data[o]]
      /\ bad' = (clean /\ \E o \in Btrees : page[dCol[o].hdr] = -1)
      /\ nextOid' = IF FixNextOid THEN (IF Oids = {} THEN 1 ELSE (CHOOSE m \in Oids : \A x \in Oids : x <= m) + 1) ELSE 1
